@@ -145,7 +145,7 @@ def chanOf (s : String) : Chan :=
   | "default" => .dflt | "env" => .env | "config" => .config | "object" => .object | _ => .argv
 
 def lerrStr : LErr → String
-  | .multiNoFn => "multiNoFn" | .doubleTarget => "doubleTarget" | .sourceIsTarget => "sourceIsTarget"
+  | .multiNoFn => "multiNoFn" | .doubleTarget => "doubleTarget" | .sourceIsTarget => "sourceIsTarget" | .selfLink => "selfLink"
   | .targetIsSource => "targetIsSource" | .noAction => "noAction" | .badSubclassTarget => "badSubclassTarget"
 
 def perrStr : PErr → String
